@@ -159,12 +159,23 @@ class Vertex(base.BaseObject):
             return self._QA_NB_INVALID
 
         if args in self.__qa_nb_cache:
-            self._CACHE_STATS[self.uid][0] += 1
+            self._qa_stats()[0] += 1
 
             return self.__qa_nb_cache[args]
 
-        self._CACHE_STATS[self.uid][1] += 1
+        self._qa_stats()[1] += 1
         return self._QA_NB_INVALID
+
+    def _qa_stats(self) -> list[int]:
+        """
+        Get (creating them if needed) this vertex's cache statistics counters.
+
+        **FOR INTERNAL USE ONLY!!**
+
+        Vertices that were not created through ``__init__`` in this interpreter
+        (un-pickled ones, for example) have no counters registered yet.
+        """
+        return self._CACHE_STATS.setdefault(self.uid, [0, 0, 0, 0])
 
     def _qa_neighbors_invalidate(self):
         """
@@ -183,7 +194,7 @@ class Vertex(base.BaseObject):
         self.__qa_nb_cache = {}
         if not self.NEIGHBOR_CACHING:
             return
-        self._CACHE_STATS[self.uid][2] += 1
+        self._qa_stats()[2] += 1
 
     def _qa_neighbors_insert(self, answer, *args):
         """
@@ -199,7 +210,7 @@ class Vertex(base.BaseObject):
         """
         if not self.NEIGHBOR_CACHING:
             return
-        self._CACHE_STATS[self.uid][3] += 1
+        self._qa_stats()[3] += 1
         self.__qa_nb_cache[args] = answer
 
     def add_to_link(self, link: Link):
